@@ -15,6 +15,7 @@ import (
 	"verif/sim/core"
 
 	"verif/sim/chainsim"
+	_ "verif/sim/kbsim"
 	_ "verif/sim/storesim"
 )
 
